@@ -204,3 +204,15 @@ PROPS["C17"] = {
     "assumptions": [],
     "timeout": 3000,
 }
+
+PROPS["C18"] = {
+    "modules": ["Foundation.Proofs.C18"],
+    "facts": True,
+    "level_text": "Machine-checked over configuration trees (every field absent / null / wrong kind / empty object / any string; unknown and duplicate members; JSON or legacy positional arguments for any channel name) and arbitrary histories: an initialisation is accepted iff the caller carries the admin OU, the arguments decode and the schema predicate holds (patterns for symbol, robot key and every given wallet, contract required, issuer required wherever a token section is given), and then exactly that configuration is stored (stored_iff_valid); a rejected one leaves the stored configuration untouched; in every history each invocation runs under the last successfully stored configuration or is refused when there is none (invoke_uses_last_stored, refused_until_first_valid_init). The three patterns are structural recognisers; per-run obligations tie them, the required members, the Init step order, the validator chain and the 20-entry legacy channel table to the source. Tie: ~500 (quick) histories of field-wise mutated configurations, callers, positional arguments and repeated initialisations, observing the Init reply, the __config key and the configuration in force on the next invocation.",
+    "level_note": "Trusted: Lean kernel + 3 axioms; protojson's treatment of unknown/duplicate members, null and wrong kinds as exercised by the differential run; the generated validators apply each pattern to the field the extractor reports; x509 parsing of the creator certificate; regular-expression semantics of the three patterns (hand-written recognisers, exercised at their boundaries).",
+    "trusted_base": ["Init/Validate/Configure modelled by Foundation.Config", "facts: configPatterns, configPatternUses, configRequired, initCallOrder, validateChain, legacyChannels/legacyMappers re-extracted each run"],
+    "hypotheses": ["the contract is a token (BaseToken): the whole-config validator runs; a plain BaseContract only runs the base validator"],
+    "not_modelled": ["ext_config (google.protobuf.Any)", "tracing collector endpoint settings", "config mapper option (WithConfigMapperFunc)"],
+    "assumptions": [],
+    "timeout": 3000,
+}
